@@ -1076,6 +1076,57 @@ theorem engines_agree_rangeAgg (parse : Bytes → Option Rat) (o : Oracles) (E :
   simp only [evalPlan, Stages.stages, List.foldl_nil, hcounts, if_true, optCompare, hrf, hrt, hE] at this ⊢
   exact this
 
+theorem compareVal_rat (parse : Bytes → Option Rat) (op : CmpOp) (x y : Rat) :
+    compareVal (ratOps parse) op x y = cmpHoldsR op x y := by
+  cases op <;> simp only [compareVal, cmpHoldsR, ratOps] <;> by_cases h : x = y <;> simp [h]
+
+/-- **… followed by a comparison** (`rate(…) > 2`): the in-process comparison stage keeps exactly the samples C08's
+    `cmpStage` keeps of `rangePoints` (the threshold read as the number the literal denotes) -/
+theorem engines_agree_rangeAgg_cmp (parse : Bytes → Option Rat) (o : Oracles) (E : Env Rat) (hE : E.num = ratOps parse)
+    (h0 : E.o.isNum [] = false) (c : LogQL.Ctx) (hn : c.namesOk) (d : LokiDb) (hd : SeriesStoreOk o c d)
+    (ms : List Matcher) (hm : ms.length ≤ 63) (fs : List Stage)
+    (fn : Read.RangeFn) (fn' : LogQL.RangeFn) (hfn : toLra fn = some fn')
+    (dur k n : Nat) (hdur : 0 < dur) (hfrom : c.fromNs = (k : Int) * dur) (hto : c.toNs = c.fromNs + (n : Int) * dur)
+    (rc : Read.Ctx) (hrf : rc.fromNs = c.fromNs) (hrt : rc.toNs = c.toNs)
+    (hcap : (Stages.firstBy (fun e : Entry Rat => e.fp) (chRows E.num o c d ms (fs.map .fl))).length ≤ rc.maxSeries)
+    (cm : Comparison) (bs : Batches Rat) (hbs : bs.flatten = chRows E.num o c d ms (fs.map .fl))
+    (l : Read.Labels) (t : Int) (v : Rat) :
+    (∃ e ∈ (runPlan E rc ⟨[], some (.range fn, dur), none, some (cm.op, numOf cm.val), none⟩ bs).flatten,
+        e.labels = l ∧ e.ts = t ∧ e.val = v) ↔
+    (∃ pt ∈ cmpStage (some cm) (rangePoints o c d ⟨.lra fn', ⟨ms, fs⟩, dur, none, none, none⟩ c.fromNs c.toNs),
+        ∃ fp, pt.key = .int fp ∧ canonLabels (asMap (labelsOf o c d ⟨ms, fs⟩ fp)) = l ∧ pt.ts = t ∧ pt.value = v) := by
+  have hcounts : rangeCounts fn = true := by cases fn <;> simp [toLra, rangeCounts] at hfn ⊢
+  have hrun := split_end_to_end_metric o E h0 c hn d hd ms hm fs rc ⟨[], some (.range fn, dur), none, some (cm.op, numOf cm.val), none⟩ rfl
+    (by intro s hs; cases hs) rfl (by intro _ _ _ h; cases h)
+    (by simpa [aggInput, Stages.stages] using hcap) (by simp [vecInput, Stages.firstBy]) bs hbs
+  rw [hrun]
+  have hrows : (chRows E.num o c d ms (fs.map .fl)).Perm ((baseX o c d ms (fs.map .fl)).map (scanX (ratOps parse))) := by
+    simp only [chRows, planLogX_correct o c hn d ⟨ms, fs.map .fl⟩ false hm, hE]
+    exact scanRows_evalLogX_perm (ratOps parse) o c d ms (fs.map .fl)
+  have hagree := range_agree parse o c d hd ms fs fn fn' hfn dur k n hdur hfrom hto _ hrows l t v
+  simp only [hE] at hagree
+  simp only [evalPlan, Stages.stages, List.foldl_nil, hcounts, if_true, optCompare, hrf, hrt, hE, cmpStage]
+  constructor
+  · rintro ⟨e, he, hel, het, hev⟩
+    simp only [List.mem_flatten, List.mem_map] at he
+    obtain ⟨b, ⟨b0, hb0, rfl⟩, heb⟩ := he
+    simp only [compareStage, List.mem_filter] at heb
+    obtain ⟨pt, hpt, fp, h1, h2, h3, h4⟩ := hagree.mp ⟨e, List.mem_flatten.mpr ⟨b0, hb0, heb.1⟩, hel, het, hev⟩
+    refine ⟨pt, List.mem_filter.mpr ⟨hpt, ?_⟩, fp, h1, h2, h3, h4⟩
+    rw [h4, ← hev, ← compareVal_rat parse]
+    exact heb.2
+  · rintro ⟨pt, hpt, fp, h1, h2, h3, h4⟩
+    obtain ⟨hpt1, hpt2⟩ := List.mem_filter.mp hpt
+    obtain ⟨e, he, hel, het, hev⟩ := hagree.mpr ⟨pt, hpt1, fp, h1, h2, h3, h4⟩
+    obtain ⟨b0, hb0, heb0⟩ := List.mem_flatten.mp he
+    refine ⟨e, ?_, hel, het, hev⟩
+    simp only [List.mem_flatten, List.mem_map]
+    refine ⟨_, ⟨b0, hb0, rfl⟩, ?_⟩
+    simp only [compareStage, List.mem_filter]
+    refine ⟨heb0, ?_⟩
+    rw [compareVal_rat parse, hev, ← h4]
+    exact hpt2
+
 /-! ### the recorded finding: a step above the range -/
 /-- `clickhouse_planner.StepFixPlanner` on the matrix of the range / vector aggregation (rows ordered by series, then time):
     when the step is greater than the range, one row per (series, step bucket `intDiv(ts, step) * step`) with the value of
